@@ -155,13 +155,15 @@ impl TapeRng {
         }
         (0..=all.len() - needle.len()).find(|i| &all[*i..*i + needle.len()] == needle)
     }
-    /// candidate `len`-byte windows of the stream that start at a draw boundary: first the
-    /// draws of exactly that length, then runs starting at each draw boundary
+    /// candidate `len`-byte windows of the stream, most plausible first: the draws of exactly
+    /// that length, then runs starting at each draw boundary, then every other offset (so an
+    /// implementation that fetches several values with one larger call is still recognised)
     pub fn windows(&self, len: usize) -> Vec<(usize, Vec<u8>)> {
         let mut v = Vec::new();
+        let mut seen = std::collections::HashSet::new();
         let mut off = 0;
         for d in &self.draws {
-            if d.bytes.len() == len {
+            if d.bytes.len() == len && seen.insert(off) {
                 v.push((off, d.bytes.clone()));
             }
             off += d.bytes.len();
@@ -169,10 +171,17 @@ impl TapeRng {
         let all = self.all_bytes();
         let mut off = 0;
         for d in &self.draws {
-            if d.bytes.len() != len && off + len <= all.len() {
+            if off + len <= all.len() && seen.insert(off) {
                 v.push((off, all[off..off + len].to_vec()));
             }
             off += d.bytes.len();
+        }
+        if all.len() >= len {
+            for off in 0..=all.len() - len {
+                if seen.insert(off) {
+                    v.push((off, all[off..off + len].to_vec()));
+                }
+            }
         }
         v
     }
